@@ -64,6 +64,11 @@ def distance(a, b):
         # d = | (q - p) * n |
         # where n is a vector orthogonal to both lines and with length 1!
         # We can achieve this by using the normalized cross product
+        if a.dv.parallel(b.dv):
+            # Parallel lines have no common normal direction given by the
+            # cross product (it is zero); every point of one line has the
+            # same distance to the other line
+            return distance(Point(a.sv), b)
         normale = a.dv.cross(b.dv).normalized()
         return abs((b.sv - a.sv) * normale)
 
